@@ -32,6 +32,18 @@ __CPROVER_ensures((PRIV_ON && n >= 5) ==> ((const uint8_t *)dst)[4] == ((const u
     return dst;
 }
 
+/* =========================================================== memcmp with a non-constant length
+ * result 0: the ranges agree (stated at the ghost index); result != 0: they differ at the ghost witness g_w, which the model sets.  Sign not modelled. */
+extern size_t g_w;
+int verif_memcmp(const void *a, const void *b, size_t n)
+__CPROVER_requires(n <= VEC_MAX && (n == 0 || (__CPROVER_r_ok(a, n) && __CPROVER_r_ok(b, n))))
+__CPROVER_assigns(g_w)
+__CPROVER_ensures((__CPROVER_return_value == 0 && g_k < n) ==> ((const uint8_t *)a)[g_k] == ((const uint8_t *)b)[g_k])
+__CPROVER_ensures(__CPROVER_return_value != 0 ==> (g_w < n && ((const uint8_t *)a)[g_w] != ((const uint8_t *)b)[g_w]))
+{
+    return n ? memcmp(a, b, n) : 0;
+}
+
 /* =========================================================== std::vector<uint8_t> */
 
 /* vector() */
